@@ -130,7 +130,7 @@ def r_modelfromstr(root):
             return model
         blue = HS({".kind": "parser", ".clone": pyeval.PyFn(lambda: (ev.append(("clone",)), HS({".kind": "parser clone", ".get_model_from_str": pyeval.PyFn(gmfs)}))[1])})
         me = HS({".kind": "metamodel", ".model_param_defs": HS({".check_params": pyeval.PyFn(lambda source, **kw: ev.append(("check", source, dict(kw))))}), ".internal_model_from_file": pyeval.PyFn(internal), ".debug": False,
-                 ".scope_providers": dict(providers), "._parser_blueprint": blue, "._cached_model_ids": pyeval.PyFn(lambda: "snapshot"), "._call_model_processors": pyeval.PyFn(lambda m_, c_=None: ev.append(("processors", m_, c_)))})
+                 ".scope_providers": dict(providers), "._parser_blueprint": blue, "._cached_model_ids": pyeval.PyFn(lambda: (ev.append(("snapshot",)), "snapshot")[1]), "._call_model_processors": pyeval.PyFn(lambda m_, c_=None: ev.append(("processors", m_, c_)))})
         if with_repo: me["._tx_model_repository"] = HS({".kind": "repo"})
         env = {"__functions__": fns, "__module__": t, "self": me, "model_str": text, "file_name": file_name, "encoding": "latin-1", "debug": "DBG", "pre_ref_resolution_callback": user_cb, fn.args.kwarg.arg: kwargs,
                "ModelParams": pyeval.PyFn(lambda d=None, **k: HS({".kind": "ModelParams", ".given": dict(d if d is not None else k)})), "TextXError": pyeval.PyFn(lambda *a, **k: {".cls": "TextXError"}), "os": pyeval.TRUSTED["os"]}
@@ -154,8 +154,12 @@ def r_modelfromstr(root):
         rep("text with a file name, %s" % cfg, ok, "model_from_str(text, file_name='models/a.mdl', encoding='latin-1', debug='DBG', callback, project_root='../p', n=0) on %s %s after the steps %s; documented: the parameters are checked, then the text is loaded as that file - internal_model_from_file('models/a.mdl', 'latin-1', 'DBG', model_str=<the text unchanged>, the callback, the parameters) - whatever the meta-model's configuration" % (cfg, "returns the model" if k == "ret" and v is model else ("raises %s" % v if k == "raise" else "returns something else"), [(e[0],) + tuple(x_ if isinstance(x_, (str, type(None))) else "..." for x_ in e[1:4]) for e in ev]))
         k, v, ev, model, cb, kw = run(None, providers, with_repo)
         pr_ = [e for e in ev if e[0] == "parse"]; ucb = [e for e in ev if e[0] == "user callback"]; proc = [e for e in ev if e[0] == "processors"]
-        ok = k == "ret" and v is model and len(pr_) == 1 and pr_[0][1] == TEXT and pr_[0][2] is None and pr_[0][3] == "DBG" and not [e for e in ev if e[0] == "internal"] and len(ucb) == 1 and ucb[0][1] is model and isinstance(model.get("._tx_model_params"), dict) and model["._tx_model_params"].get(".given") == kw and len(proc) == 1 and proc[0][1] is model and proc[0][2] == "snapshot" and ev.index(ucb[0]) < ev.index(proc[0]) and [e for e in ev if e[0] == "clone"]
-        rep("text without file name, %s" % cfg, ok, "model_from_str(text, debug='DBG', callback, project_root='../p', n=0) on %s %s after the steps %s, the model's parameters are %s; documented: a clone of the parser blueprint parses the text unchanged, the model gets the parameters as given and the caller's callback runs once, then the model processors run with the snapshot of the cached models" % (cfg, "returns the model" if k == "ret" and v is model else ("raises %s" % v if k == "raise" else "returns something else"), [e[0] for e in ev], model.get("._tx_model_params", {}).get(".given") if isinstance(model.get("._tx_model_params"), dict) else model.get("._tx_model_params")))
+        ok = k == "ret" and v is model and len(pr_) == 1 and pr_[0][1] == TEXT and pr_[0][2] is None and pr_[0][3] == "DBG" and not [e for e in ev if e[0] == "internal"] and len(ucb) == 1 and ucb[0][1] is model and isinstance(model.get("._tx_model_params"), dict) and model["._tx_model_params"].get(".given") == kw and len(proc) == 1 and proc[0][1] is model and proc[0][2] == "snapshot" and ev.index(ucb[0]) < ev.index(proc[0]) and [e for e in ev if e[0] == "clone"] and ("snapshot",) in ev and ev.index(("snapshot",)) < ev.index(pr_[0])
+        rep("text without file name, %s" % cfg, ok, "model_from_str(text, debug='DBG', callback, project_root='../p', n=0) on %s %s after the steps %s, the model's parameters are %s; documented: a clone of the parser blueprint parses the text unchanged, the model gets the parameters as given and the caller's callback runs once, then the model processors run with the snapshot of the cached models taken before the parse (a model processor that fails removes exactly the models this load added)" % (cfg, "returns the model" if k == "ret" and v is model else ("raises %s" % v if k == "raise" else "returns something else"), [e[0] for e in ev], model.get("._tx_model_params", {}).get(".given") if isinstance(model.get("._tx_model_params"), dict) else model.get("._tx_model_params")))
+        ok_s = bool(pr_) and ("snapshot",) in ev and ev.index(("snapshot",)) < ev.index(pr_[0]) and len(proc) == 1 and proc[0][2] == "snapshot"
+        for pr in ("C16", "C15", "C18"):
+            ob(pr, "C28.j", MM, W, "snapshot of the cached models before the parse, %s" % cfg, ok_s)
+            if not ok_s: out.append(Finding(pr, "C28.j", MM, W, "snapshot of the cached models before the parse, %s" % cfg, "model_from_str(text) on %s takes the steps %s: the model processors must get the snapshot of the models cached *before* this load parsed anything - with a later snapshot a failing model processor leaves the models of the failed load in the global repository, and every later load of those files returns them" % (cfg, [e[0] for e in ev]), witness="global_repository=True, a model processor that raises, then the same text loaded again"))
     k, v, ev, model, cb, kw = run(None, {}, False, text=b"bytes")
     rep("anything but a string is refused", k == "raise" and v == "TextXError" and not [e for e in ev if e[0] in ("parse", "internal")], "model_from_str(b'bytes') %s; documented TextXError before anything is parsed" % ("raises %s" % v if k == "raise" else "is accepted"))
     return inst, out
@@ -323,6 +327,13 @@ def r_modelparams(root):
     rep("all given parameters are exposed", k == "ret" and sorted(v) == ["n", "outDir", "strict"] and (k2, v2) == ("ret", 3), "the parameters exposed by the model are %s (%s of them); given were n, outDir, strict" % (sorted(v) if k == "ret" else v, v2), "ModelParams")
     k, v = call(mp, "__getitem__", "missing")
     rep("an absent parameter is a KeyError", k == "raise" and v == "KeyError", "reading a parameter that was not given %s" % ("returns %r" % (v,) if k == "ret" else "raises %s" % v), "ModelParams")
+    # the Mapping mix-ins (get, __contains__) follow from __getitem__ unless the class writes its own: then its own are evaluated
+    if pyeval.find_method(cds, "ModelParams", "get")[1] is not None:
+        vals = [call(mp, "get", k_, "the default") for k_ in ("outDir", "strict", "n", "missing")]
+        rep("get() hands out given values as given (also None and 0), the default only for an absent name", vals == [("ret", "/o"), ("ret", None), ("ret", 0), ("ret", "the default")], "ModelParams({'outDir': '/o', 'strict': None, 'n': 0}).get(name, 'the default') for outDir, strict, n, missing gives %s" % (vals,), "ModelParams.get")
+    if pyeval.find_method(cds, "ModelParams", "__contains__")[1] is not None:
+        vals = [call(mp, "__contains__", k_) for k_ in ("outDir", "strict", "n", "missing")]
+        rep("every given name is contained (also with the value None or 0), an absent one is not", [(k_, bool(v_)) for k_, v_ in vals] == [("ret", True)] * 3 + [("ret", False)], "'name in params' for outDir, strict, n, missing gives %s" % (vals,), "ModelParams.__contains__")
     return inst, out
 
 def r_internalload(root):
